@@ -544,7 +544,7 @@ func posName(pos, l int) string {
 var Prop = &harness.Prop{
 	ID:          "C01",
 	Level:       "exploration",
-	Rule:        "full product keys(12: boundary d, GM/T example, short d, Px/Py with leading zero byte found by deterministic search) x message lengths {0,1,31,32,33,55,56,63,64,65,119,128,1000,65536} x user IDs {absent, default, 1,2,16,17,255,8191 bytes} x nonce streams (k=1,2,n-1,n-2,2^255, all-ff, pattern, 1-byte reads, short k) for Sm2Sign/Sm2Verify/Verify/Sm3Digest against the independent reference, with bytes consumed; DER Sign/Verify plus 24 malformed encodings; every single-field perturbation of valid tuples decided by the reference verifier. Distinct/non-trivial = distinct case labels.",
+	Rule:        "full product keys(12: boundary d, GM/T example, short d, Px/Py with leading zero byte found by deterministic search) x message lengths {0,1,31,32,33,55,56,63,64,65,119,128,1000,65536} x user IDs {absent, default, 1,2,16,17,255,8191 bytes} x nonce streams (k=1,2,n-1,n-2,2^255, all-ff, pattern, 1-byte reads, short k) for Sm2Sign/Sm2Verify/Verify/Sm3Digest against the independent reference, with bytes consumed; DER Sign/Verify plus 24 malformed encodings; every single-field perturbation of valid tuples decided by the reference verifier. Distinct/non-trivial = distinct case labels. Interleaved nonce reads: two signers (or a signer and GenerateKey) whose readers stop before and after filling the buffer, all 6 orders of the four events. Valid triples with r or s in {1, 7, 65537, 2^40} and e solved from the verification equation: accepted; r+n / s+n (still below 2^256) refused.",
 	Assumptions: []string{"refsm2/refsm3 correct (anchored on the GM/T 0003.5 signature, encryption and key-exchange examples)", "the nonce is k = int(40 bytes) mod (n-1) + 1 as the property's anchors document", "retry branches (r=0, r+k=n, s=0) need an SM3 preimage and are not reachable"},
 	Bounds: func(tier string) string {
 		if tier == "thorough" {
